@@ -155,6 +155,36 @@ func wireClause(wire []byte, accepted [][]byte, rejected []byte, complete bool) 
 	return ""
 }
 
+// timerOp waits for the flush timer.  When nothing has failed, everything accepted must be on
+// the wire once the delay has elapsed: the wait is extended (up to 2 s, far beyond the 3 ms
+// delay) before that clause is declared violated, so a slow machine cannot fake a failure.
+func timerOp(m *memCarrier, accepted [][]byte, failed bool) (seen bool, clause string) {
+	seen = m.waitTimer(timerWait)
+	if failed {
+		return seen, ""
+	}
+	want := 0
+	for _, a := range accepted {
+		want += len(a)
+	}
+	have := func() int {
+		n := 0
+		for _, w := range m.snapshotWrites() {
+			n += len(w)
+		}
+		return n
+	}
+	for i := 0; i < 20 && have() < want; i++ {
+		if m.waitTimer(100 * time.Millisecond) {
+			seen = true
+		}
+	}
+	if have() < want {
+		return seen, fmt.Sprintf("%d of %d accepted bytes are still not on the wire 2 s after a buffered write (flush delay %s)", want-have(), want, timerDelay)
+	}
+	return seen, wireClause(bytes.Join(m.snapshotWrites(), nil), accepted, nil, true)
+}
+
 func firstDiff(a, b []byte) int {
 	for i := 0; i < len(a) && i < len(b); i++ {
 		if a[i] != b[i] {
@@ -215,10 +245,17 @@ func (x *c03) encCase(s encScript) {
 				failed = true
 			}
 		case 'T':
-			if w.waitTimer(timerWait) {
+			seen, clause := timerOp(w, accepted, failed || s.delay0)
+			if seen {
 				res = append(res, "t")
 			} else {
 				res = append(res, "-")
+			}
+			if clause != "" {
+				c.Emit("direct c03_timer_flush %d FAIL %s", n, clause)
+			} else if !failed {
+				c.Emit("direct c03_timer_flush %d ok", n)
+				c.Stat("direct_timer_flush", 1)
 			}
 		case 'X':
 			w.failWrites()
@@ -396,6 +433,13 @@ func (x *c03) connCase(s connScript) {
 		case 'C':
 			err := conn.Close()
 			res = append(res, resText(err))
+			// whatever the flush did, Close must have closed the carrier
+			if m.closeCalls() == 0 {
+				c.Emit("direct c19_close_closes_carrier %d FAIL Close returned %v without calling carrier.Close", n, err)
+			} else {
+				c.Emit("direct c19_close_closes_carrier %d ok", n)
+			}
+			c.Stat("close_closes_carrier_checks", 1)
 			if closedAt < 0 {
 				closedAt = len(accepted)
 				if !failed && !s.clfail {
@@ -410,10 +454,17 @@ func (x *c03) connCase(s connScript) {
 			}
 			failed = true
 		case 'T':
-			if m.waitTimer(timerWait) {
+			seen, clause := timerOp(m, accepted, failed || s.delay0)
+			if seen {
 				res = append(res, "t")
 			} else {
 				res = append(res, "-")
+			}
+			if clause != "" {
+				c.Emit("direct c03_timer_flush %d FAIL %s", n, clause)
+			} else if !failed {
+				c.Emit("direct c03_timer_flush %d ok", n)
+				c.Stat("direct_timer_flush", 1)
 			}
 		case 'X':
 			m.failWrites()
